@@ -75,10 +75,14 @@ def violated(rep, ex: Explorer):
             # clause unsatisfied: no literal of the model occurs in it
             sat_pred = None
             for k, v in icase.guard:
-                if k[0] == "exists" and k[2] == ("members", MODEL):
+                if k[0] in ("exists", "forall") and k[2] == ("members", MODEL):
                     body = F.subst_any(k[4], {k[1]: ("var", "_x")})
-                    if body == ("in", ("elem", ("var", "_x"), "lit"), inner.evar):
+                    occurs = ("in", ("elem", ("var", "_x"), "lit"), inner.evar)
+                    if k[0] == "exists" and body == occurs:
                         sat_pred = v
+                    elif k[0] == "forall" and body == ("not", occurs):
+                        # ∀x: x∉clause  is  ¬∃x: x∈clause
+                        sat_pred = not v
             rep.check(sat_pred is False, "MCS.violated", where, "clause unsatisfied", "a clause counts as violated iff no literal of the model occurs in it",
                       extracted=f"∃x∈model: x∈clause = {sat_pred}", required="False", function=site)
     rep.floor("MCS.violated record sites", n, 1)
